@@ -61,4 +61,31 @@ mod verif_renko {
 		let out = r.next(&candle_at(v));
 		assert!(out.len >= 1);
 	}
+
+	// ---- C17: the batch collapse of a sequence (Sequence::collapse_timeframe: windows / step_by / map(reduce) / collect, outside the Verus subset)
+	// against the aggregation rule (first open, highest high, lowest low, last close, summed volume), bounded: 4 candles, size 2, both modes,
+	// integer-valued fields in 0..=15 so every sum is exact
+	fn small_candle() -> Candle {
+		let a: u8 = kani::any(); let b: u8 = kani::any(); let c: u8 = kani::any(); let d: u8 = kani::any(); let v: u8 = kani::any();
+		kani::assume(a < 16 && b < 16 && c < 16 && d < 16 && v < 16);
+		Candle { open: a as ValueType, high: b as ValueType, low: c as ValueType, close: d as ValueType, volume: v as ValueType }
+	}
+	fn agg_ok(r: &Candle, x: &Candle, y: &Candle) -> bool {
+		r.open == x.open && r.high == x.high.max(y.high) && r.low == x.low.min(y.low) && r.close == y.close && r.volume == x.volume + y.volume
+	}
+	#[kani::proof]
+	#[kani::unwind(6)]
+	fn vk_sequence_collapse_timeframe_l4() {
+		use crate::core::Sequence;
+		let cs = [small_candle(), small_candle(), small_candle(), small_candle()];
+		let continuous: bool = kani::any();
+		let out = cs.collapse_timeframe(2, continuous);
+		if continuous {
+			assert!(out.len() == 3);
+			assert!(agg_ok(&out[0], &cs[0], &cs[1]) && agg_ok(&out[1], &cs[1], &cs[2]) && agg_ok(&out[2], &cs[2], &cs[3]));
+		} else {
+			assert!(out.len() == 2);
+			assert!(agg_ok(&out[0], &cs[0], &cs[1]) && agg_ok(&out[1], &cs[2], &cs[3]));
+		}
+	}
 }
